@@ -1,6 +1,6 @@
 """C07 - hotter never means slower"""
 import vlib
-from props import recfam
+from props import recfam, sysfam
 
 INV = ['C07_LinearMonotone', 'C07_StepsMonotone', 'C07_GraphMonotone', 'C07_CtlMonotone', 'C07_CtlRateMonotone']
 
@@ -14,6 +14,11 @@ def check(run):
     ctl = run.drive('TestDriveC07Ctl', shards, lambda i: dict(VERIF_SEED=run.seed * 1000 + i, VERIF_N=run.pick(12, 400)), 'ctlsweep', timeout=3000)
     run.sample_from(ctl[0], 1)
     run.validate('Rec_Curves', recfam.rec_cfg('Rec_Curves', INV + ['C06_Linear', 'C06_Steps', 'C06_Graph']), traces + ctl, 'rec', parallel=8, timeout=3000)
+    # end to end (last clause of the property): System.tla = smoothing o curves o controller; exhaustive small instance,
+    # then real pipelines driven by polls and cycles: a temperature rise alone never lowers the PWM a fan is given
+    sysfam.model(run)
+    _, cycles = sysfam.traces(run, [], ['C07_EndToEndObs'])
+    run.cov['system_cycles'] = cycles
     sweeps = 0
     for t in traces + ctl:
         with open(t) as f:
@@ -26,6 +31,9 @@ def check(run):
                       'rescale + nearest-supported-value checked on the definitions; real sweeps: every linear curve over an ascending '
                       'temperature grid (1 m-degree steps around every threshold, 100 m-degree elsewhere), monotone curve graphs along '
                       'ascending sensor paths, and the real controller (direct algorithm) over curve values 0..255 for sampled limits and '
-                      'non-decreasing maps; TLC checks consecutive monotonicity (hence all pairs) and the definition; non-trivial = sweeps',
+                      'non-decreasing maps; TLC checks consecutive monotonicity (hence all pairs) and the definition; end to end: System.tla '
+                      '(smoothing, curves, controller composed) model-checked on a small instance and real pipelines built by the start-up code '
+                      'driven by interleaved polls and cycles (C07_EndToEndObs: during a stretch of rising readings no fan is given a lower PWM); '
+                      'non-trivial = sweeps',
                       dict(evaluations=sweeps, distinct_nontrivial=sweeps, sweeps=sweeps),
                       ['step sets with decreasing speeds and difference/delta functions are outside the property'])
